@@ -130,19 +130,23 @@ def monitor (d : DSt) (s' : St) (op : Op) (impl : String) : Option (Nat × BStat
   | none => (d.implPushed, "VIOL unparsable answer")
   | some (_, evs) =>
     let pushed := lastPush evs d.implPushed
-    let v :=
+    let swapRule : Option String := match op with
+      | .st c x =>
+        if !(known d.s c) then none else
+        let want := canon (specReport d.s c x)
+        if evs = want then none
+        else if shouldSwap d.s c x then some s!"VIOL swap rule: the new policy must become current and the old one be closed here (want {showEvs want})"
+        else if evs.any isCloseEv then some "VIOL swap rule: the old policy was closed although it is READY and the new one only CONNECTING"
+        else some s!"VIOL swap rule: wrong update to the channel (want {showEvs want})"
+      | _ => none
+    let v := match swapRule with
+      | some m => m
+      | none =>
       if !(pushesFromCurrent s' evs) then
         "VIOL a state update reached the channel from a policy that is not the current one (closed, superseded or still pending)"
       else if !(retiredClosed d.s s' evs) then "VIOL a policy was dropped without being closed, or a SubConn it created was not shut down"
       else if !(gracefulOk s' pushed) then "VIOL the channel does not have the latest state of the policy in use"
       else match op with
-        | .st c x =>
-          if !(known d.s c) then "ok" else
-          let want := canon (specReport d.s c x)
-          if evs = want then "ok"
-          else if shouldSwap d.s c x then s!"VIOL swap rule: the new policy must become current and the old one be closed here (want {showEvs want})"
-          else if evs.any isCloseEv then "VIOL swap rule: the old policy was closed although it is READY and the new one only CONNECTING"
-          else s!"VIOL swap rule: wrong update to the channel (want {showEvs want})"
         | .switchTo _ _ =>
           -- repeated switch: a replaced pending policy is closed on the spot
           match d.s.pending with
